@@ -134,7 +134,9 @@ def scan(source: str, callback: callable):
                 state.expression += 1
             elif scanner.eat(Chars.RightRound):
                 state.expression -= 1
-            elif not literal(scanner):
+            elif not literal(scanner) and not scanner.eof():
+                # NB: a selector colon (`::`, `(a:`) may have been consumed right
+                # before the end of source, so there may be nothing left to skip
                 scanner.pos += 1
 
             state.end = scanner.pos
